@@ -110,15 +110,20 @@ def nd_cases(rng, tier):
                     # half of the evaluations are in place into an element holding arbitrary old values:
                     # the result must not depend on them (solvers call op(x, out=...) on used buffers)
                     inplace = rng.random() < 0.5
-                    out = op(x, out=rand_el(op.range)) if inplace else op(x)
                     lin = bool(op.is_linear)
-                    if lin:
-                        y = rand_el(op.range)
-                        adj = pack(op.adjoint(y, out=rand_el(op.domain)) if inplace else op.adjoint(y),
-                                   op.domain)
-                        yy = pack(y, op.range)
-                    else:
-                        adj, yy = [], []
+                    try:
+                        out = op(x, out=rand_el(op.range)) if inplace else op(x)
+                        if lin:
+                            y = rand_el(op.range)
+                            adj = pack(op.adjoint(y, out=rand_el(op.domain)) if inplace else op.adjoint(y),
+                                       op.domain)
+                            yy = pack(y, op.range)
+                        else:
+                            adj, yy = [], []
+                    except Exception as e:
+                        # evaluating a legal configuration raised: reported as a failing input by the probes
+                        _CTOR_FAILS.append((dict(meta, in_place=inplace, flags=None if bdry is None else flags), repr(e)))
+                        continue
                     term = ('{| n_op := %s; n_shape := %s; n_m := %s; n_p := %s; n_c := %s; n_dxs := %s; '
                             'n_x := %s; n_out := %s; n_linear := %s; n_y := %s; n_adj := %s |}'
                             % (opk, C.nats(shape) + '%nat', T.METH[m], T.PMODE[p], C.q(c), C.qs(dxs),
@@ -229,10 +234,17 @@ def nd_oracle(meta, seed=0):
     return True, None, None, ''
 
 
+def nd_oracle_safe(meta, seed=0):
+    try:
+        return nd_oracle(meta, seed)
+    except Exception as e:
+        return False, repr(e), 'no exception', 'evaluating the operator raised on a legal configuration'
+
+
 def _nd_probe(meta, key):
-    ok, obs, exp, what = nd_oracle(meta)
-    rp = ("import sys\nsys.path.insert(0, %r)\nfrom harness.c13 import nd_oracle\n"
-          "ok, observed, expected, what = nd_oracle(%r)\n" % (C.VERIF, meta))
+    ok, obs, exp, what = nd_oracle_safe(meta)
+    rp = ("import sys\nsys.path.insert(0, %r)\nfrom harness.c13 import nd_oracle_safe\n"
+          "ok, observed, expected, what = nd_oracle_safe(%r)\n" % (C.VERIF, meta))
     return C.Probe(ok, key, '%s on shape %s (%s, %s%s): %s' % (
         meta['op'], meta['shape'], meta['method'], meta['pad_mode'],
         ', in place' if meta.get('in_place') else '', what or 'N-d oracle'), rp,
@@ -359,9 +371,12 @@ def probes(rng, tier):
         f = np.array([float(rng.randint(-9, 9)) for _ in range(n)])
         dx = rng.choice([1.0, 0.5, 2.0])
         c = float(rng.choice([0, 1, -2])) if p == 'constant' else 0.0
-        got = finite_diff(f, axis=0, dx=dx, method=m, pad_mode=p, pad_const=c)
         want = _ref_fd(f, m, p, c, dx)
-        ok = bool(np.array_equal(got, want))
+        try:
+            got = finite_diff(f, axis=0, dx=dx, method=m, pad_mode=p, pad_const=c)
+            ok = bool(np.array_equal(got, want))
+        except Exception:
+            ok = False
         key = 'order2-onesided' if (p == 'order2' and m != 'central') else 'textbook-%s-%s' % (m, p)
         rp = ("import numpy as np\nfrom odl.discr.diff_ops import finite_diff\n"
               "f=np.array(%r); got=finite_diff(f,axis=0,dx=%r,method=%r,pad_mode=%r,pad_const=%r)\n"
@@ -408,8 +423,11 @@ def probes(rng, tier):
                   'lap': lambda: odl.Laplacian(space, pad_const=c)}[kind]()
             x = op.domain.element([_arr(rng, shape) for _ in range(len(op.domain))] if isinstance(op.domain, odl.ProductSpace) else _arr(rng, shape))
             h = op.domain.element([_arr(rng, shape) for _ in range(len(op.domain))] if isinstance(op.domain, odl.ProductSpace) else _arr(rng, shape))
-            d = op.derivative(x)
-            ok = (not op.is_linear) and d.is_linear and np.array_equal(_flat(op(x + h)) - _flat(op(x)), _flat(d(h)))
+            try:
+                d = op.derivative(x)
+                ok = (not op.is_linear) and d.is_linear and np.array_equal(_flat(op(x + h)) - _flat(op(x)), _flat(d(h)))
+            except Exception:
+                ok = False
             out.append(C.Probe(bool(ok), 'affine-derivative-%s-%s' % (kind, m),
                                '%s with pad_const=%r: derivative is the zero-padding operator and the operator is flagged nonlinear' % (kind, c),
                                None, {'shape': shape}))
@@ -449,10 +467,10 @@ def probes(rng, tier):
         for m in (METHS if kind != 'lap' else ['forward']):
             for p in (PMODES if kind != 'lap' else LAP_MODES):
                 for _ in range(nper):
-                    ndim = rng.choice([2, 2, 3])
+                    ndim = rng.choice([2, 3, 3])
                     lo = 3 if p.startswith('order2') else 2
                     shape = [rng.randint(lo, 4) for _ in range(ndim)]
-                    ax = rng.randrange(ndim)
+                    ax = rng.choice([ndim - 1, rng.randrange(ndim)])
                     if kind == 'pd':
                         shape = [n_ if i == ax else rng.randint(1, 3) for i, n_ in enumerate(shape)]
                     meta = {'op': kind, 'shape': shape, 'method': m, 'pad_mode': p,
@@ -480,9 +498,13 @@ def probes(rng, tier):
         re, im = _arr(rng, [n]), _arr(rng, [n])
         op = odl.PartialDerivative(space, 0, method=m, pad_mode=p)
         rop = odl.PartialDerivative(rspace, 0, method=m, pad_mode=p)
-        got = np.asarray(op(space.element(re + 1j * im)))
-        want = np.asarray(rop(re)) + 1j * np.asarray(rop(im))
-        out.append(C.Probe(bool(np.array_equal(got, want)), 'complex-%s-%s' % (m, p),
+        try:
+            got = np.asarray(op(space.element(re + 1j * im)))
+            want = np.asarray(rop(re)) + 1j * np.asarray(rop(im))
+            okc = bool(np.array_equal(got, want))
+        except Exception:
+            okc = False
+        out.append(C.Probe(okc, 'complex-%s-%s' % (m, p),
                            'PartialDerivative on a complex space acts on real and imaginary parts', None))
     return out
 
